@@ -210,7 +210,7 @@ pub fn run(ctx: &mut Ctx) {
         non-trivial = at least 2 rows and at least one filter byte != 0; distinct = hash of the file bytes".into();
     let mut rng = ctx.rng.fork(1);
     let mut cases: Vec<(Still, u64)> = vec![];
-    let n = ctx.n(700, 12000);
+    let n = ctx.n(2400, 12000);
     for i in 0..n {
         let max = if i % 25 == 0 { 300 } else { 40 };
         let mut r = rng.fork(i as u64);
@@ -338,7 +338,7 @@ fn component_ties(ctx: &mut Ctx) {
         }
     }
     // UnfilteringBuffer
-    for run in 0..ctx.n(60, 600) {
+    for run in 0..ctx.n(150, 600) {
         let bpp = *rng.pick(&[1usize, 2, 3, 4, 6, 8]);
         let rowlen = 1 + bpp * rng.usize(1, 40);
         let rows = rng.usize(1, 12);
